@@ -1,12 +1,12 @@
 //@ unit ser_rawbytes
 //@ props C16 C01
 //@ kind B
-//@ cbmc all --unwind 23 --unwinding-assertions
+//@ cbmc all --unwind 23 --unwinding-assertions --object-bits 10
 //@ replace XMLString_sizeToText
 //@ entry h_ser_rawbytes
 //@ note B (bounded stand-in, not a proof for all sizes): buffer sizes fBufSize in {2, 3, 4, 8} (one static object each), every initial fill level 0..fBufSize, every length n <= 20 bytes (<= 10 XMLCh for the wide variants), every content: with these bounds each branch of the chunking code is taken (fits / fill up + flush / k >= 1 whole chunks / remainder / no remainder); loops fully unwound with unwinding assertions. Unbounded n would need loop contracts over the tape; out of budget
 //@ note the streams are a harness stub (trusted model): one concrete ghost tape TAPE[0..TN); BinOutputStream::writeBytes appends, BinInputStream::readBytes delivers the next bytes (fewer than asked at the end of the tape)
-//@ note scenario = what a store engine and a load engine of the same build do: [earlier data of `off` bytes] write(bytes, n) ... destructor flush  ||  constructor fillBuffer, [earlier data consumed] read(bytes, n). flushBuffer / fillBuffer / flush are the REAL bodies here
+//@ note scenario = what a store engine and a load engine of the same build do: [earlier data of `off` bytes] write(bytes, n) ... destructor flush  ||  constructor fillBuffer, [earlier data consumed] read(bytes, n). flush, write and read (byte and XMLCh variants) and the ensure* helpers are the real bodies; flushBuffer / fillBuffer are stubs (see below)
 //@ note XMLString::sizeToText (throwing paths of the TEST_THROW macros) replaced by the contract proved in ser_pumpcount
 #define VERIF_DEFINE_GHOSTS
 #include "verif_prelude.h"
@@ -34,20 +34,23 @@ static XMLSize_t BinInputStream_readBytes(struct BinInputStream *s, XMLByte *toF
   return k;
 }
 
-/*@extract src/xercesc/internal/XSerializeEngine.cpp XSerializeEngine::fillBuffer
-call ensureLoading => XSerializeEngine_ensureLoading
-call ensureLoadBuffer => XSerializeEngine_ensureLoadBuffer
-call resetBuffer => XSerializeEngine_resetBuffer
-method fInputStream->readBytes => BinInputStream_readBytes
-throws XSerializeEngine_ensureLoading XSerializeEngine_ensureLoadBuffer
-@*/
-/*@extract src/xercesc/internal/XSerializeEngine.cpp XSerializeEngine::flushBuffer
-call ensureStoring => XSerializeEngine_ensureStoring
-call ensureStoreBuffer => XSerializeEngine_ensureStoreBuffer
-call resetBuffer => XSerializeEngine_resetBuffer
-method fOutputStream->writeBytes => BinOutputStream_writeBytes
-throws XSerializeEngine_ensureStoring XSerializeEngine_ensureStoreBuffer
-@*/
+/* flushBuffer / fillBuffer: stubs that do, on the concrete tape, exactly what unit ser_fillflush proves of the real bodies
+ * (whole buffer to the stream, buffer cleared, cursor to fBufStart, fBufCount + 1  /  exact-size read or XSerializationException,
+ * cursor to fBufStart, fBufLoadMax = fBufStart + fBufSize, fBufCount + 1). The real bodies with their seven TEST_THROW
+ * expansions per call make the unwound chunk loops exceed cbmc's object limit. */
+void XSerializeEngine_flushBuffer(void)
+{
+  BinOutputStream_writeBytes((struct BinOutputStream *)fOutputStream, fBufStart, fBufSize);
+  memset(fBufStart, 0, fBufSize);
+  fBufCur = fBufStart; fBufCount++;
+}
+void XSerializeEngine_fillBuffer(void)
+{
+  memset(fBufStart, 0, fBufSize);
+  XMLSize_t r = BinInputStream_readBytes((struct BinInputStream *)fInputStream, fBufStart, fBufSize);
+  if (r != fBufSize) { verif_thrown = 1; verif_throw_type = VT_XSerializationException; return; }
+  fBufLoadMax = fBufStart + fBufSize; fBufCur = fBufStart; fBufCount++;
+}
 /*@extract src/xercesc/internal/XSerializeEngine.cpp XSerializeEngine::flush
 call isStoring => XSerializeEngine_isStoring
 call flushBuffer => XSerializeEngine_flushBuffer
